@@ -892,7 +892,12 @@ def hy_compile(
     if not get_expr:
         result += result.expr_as_stmt()
 
-    result.stmts = list(map(ResolveOuterVars().visit, result.stmts))
+    stmts = []
+    for stmt in result.stmts:
+        # A top-level `nonlocal` is replaced by a list of statements.
+        stmt = ResolveOuterVars().visit(stmt)
+        stmts.extend(stmt if isinstance(stmt, list) else [stmt])
+    result.stmts = stmts
 
     body = []
 
